@@ -353,13 +353,18 @@ where
     /// ```
     pub fn disconnect(&self, other: &K) -> Result<E, Error> {
         match self.find_outbound(other) {
-            Some(other) => match self.inner.2.borrow_mut().remove_outbound(other.key()) {
-                Ok(edge) => {
-                    other.inner.2.borrow_mut().remove_inbound(self.key())?;
-                    Ok(edge)
+            Some(other) => {
+                // The borrow of `self` must end before `other` is borrowed:
+                // for a self-loop both are the same `RefCell`.
+                let removed = self.inner.2.borrow_mut().remove_outbound(other.key());
+                match removed {
+                    Ok(edge) => {
+                        other.inner.2.borrow_mut().remove_inbound(self.key())?;
+                        Ok(edge)
+                    }
+                    Err(err) => Err(err),
                 }
-                Err(err) => Err(err),
-            },
+            }
             None => Err(Error::EdgeNotFound),
         }
     }
